@@ -8,6 +8,7 @@
 use anyhow::Result;
 use anyhow::bail;
 
+use crate::config::OutputStreamControl;
 use crate::diff::DiffLine;
 use crate::formatln;
 use crate::lossy_string;
@@ -124,7 +125,12 @@ impl OutcomeTestGenerator for Outcome {
                     expected: _,
                 } => {
                     let mut generated = self.generate_testcase_expression();
-                    let stream: &[u8] = (&self.output.stdout).into();
+                    let stream: &[u8] =
+                        if self.testcase.config.output_stream == Some(OutputStreamControl::Stderr) {
+                            (&self.output.stderr).into()
+                        } else {
+                            (&self.output.stdout).into()
+                        };
                     for (index, line) in stream.split_at_newline().iter().enumerate() {
                         generated
                             .push_str(&formatln!("{}", self.generate_expectation(line, index == 0)));
